@@ -86,7 +86,7 @@ func checkC01(e *Engine, r *Report) {
 	n += r.WhoMayWrite("R3", e.Field(pkgTA, "allocations", "grants"), "allocations.grants",
 		set(P+"allocatePool", P+"releasePool", P+"reinstateGrants", P+"newAllocations", A+"clone", A+"Set", A+"UnmarshalJSON"), taFns)
 	n += r.WhoMayWrite("R3", e.Field(pkgTA, "policy", "allocations"), "policy.allocations", set(P+"initialize", P+"restoreAllocations"), taFns)
-	r.MinInstances("R3 writers (TA CPU state)", n, 25)
+	r.MinInstances("R3 writers (TA CPU state)", n, 12)
 
 	// ---- rule 2: propagation --------------------------------------------------------------
 	depthFirst := e.objs(pkgTA, "Node.DepthFirst", "node.DepthFirst")
